@@ -7,7 +7,7 @@ NoCtr == [hi |-> -1, lo |-> 0]
 Cred(id, rp, user, ctr, hm) == [id |-> id, rp |-> rp, user |-> user, ctr |-> ctr, hm |-> hm]
 BaseCfg == [uvCap |-> "configured", upCap |-> TRUE, counterOn |-> TRUE, idLen |-> 16, hmac |-> "off", mc |-> FALSE,
             storeKind |-> "reference", disc |-> "full", emptyAsErr |-> FALSE,
-            wrap |-> "none"]     \* which shipped lock wrapper stands in front of the reference store (transparent in the model)
+            wrap |-> "none", tr |-> "default"]     \* which shipped lock wrapper stands in front of the reference store (transparent in the model)
 NoPrfReq == [given |-> FALSE, eval |-> "absent", byCred |-> <<>>, byCredGiven |-> FALSE]
 BaseReq == [rp |-> "r1", user |-> "u1", algs |-> <<"ES256">>, exclude |-> <<>>, excludeGiven |-> FALSE,
             allow |-> <<>>, allowGiven |-> FALSE, rk |-> FALSE, up |-> TRUE, uv |-> FALSE, pinAuth |-> FALSE,
